@@ -59,14 +59,48 @@ class FlagInfo:
             t = body.blocks[bi]["term"]
             if t["k"] == "call" and not t["dest"]["p"]:
                 defs.setdefault(t["dest"]["l"], []).append(None)
-        for l, rvs in defs.items():
-            if l in self.flags or len(rvs) != 1 or rvs[0] is None:
-                continue
-            rv = rvs[0]
-            if rv["k"] == "use" and rv["op"]["k"] in ("copy", "move") and not rv["op"]["place"]["p"] and rv["op"]["place"]["l"] in self.flags:
-                self.copy_of[l] = (rv["op"]["place"]["l"], False)
-            if rv["k"] == "unop" and rv["op"] == "Not" and rv["a"]["k"] in ("copy", "move") and not rv["a"]["place"]["p"] and rv["a"]["place"]["l"] in self.flags:
-                self.copy_of[l] = (rv["a"]["place"]["l"], True)
+        changed = True
+        while changed:  # copies of copies (a flag handed back through an inlined helper's return place)
+            changed = False
+            for l, rvs in defs.items():
+                if l in self.flags or l in self.copy_of or len(rvs) != 1 or rvs[0] is None:
+                    continue
+                rv = rvs[0]
+                src = neg = None
+                if rv["k"] == "use" and rv["op"]["k"] in ("copy", "move") and not rv["op"]["place"]["p"]:
+                    src, neg = rv["op"]["place"]["l"], False
+                elif rv["k"] == "unop" and rv["op"] == "Not" and rv["a"]["k"] in ("copy", "move") and not rv["a"]["place"]["p"]:
+                    src, neg = rv["a"]["place"]["l"], True
+                if src is None:
+                    continue
+                if src in self.flags:
+                    self.copy_of[l] = (src, neg)
+                    changed = True
+                elif src in self.copy_of:
+                    r0, n0 = self.copy_of[src]
+                    self.copy_of[l] = (r0, n0 != neg)
+                    changed = True
+        # flags some switch actually looks at (a flag that is written but never tested is dead)
+        self.tested = set()
+        if 0 in self.copy_of:
+            self.tested.add(self.copy_of[0][0])  # handed back to the caller, who tests it
+        for bi in cfg.nodes():
+            for s_ in body.blocks[bi]["stmts"]:
+                # stored into an aggregate / field (e.g. the chain's result tuple): observed
+                if s_["k"] == "assign" and s_["rv"]["k"] == "agg":
+                    for o in s_["rv"]["ops"]:
+                        if o["k"] in ("copy", "move") and not o["place"]["p"]:
+                            l_ = o["place"]["l"]
+                            if l_ in self.flags:
+                                self.tested.add(l_)
+                            elif l_ in self.copy_of:
+                                self.tested.add(self.copy_of[l_][0])
+        for bi in cfg.nodes():
+            t = body.blocks[bi]["term"]
+            if t["k"] == "switch":
+                f = self.switch_flag(t)
+                if f is not None:
+                    self.tested.add(f[0])
 
     def switch_flag(self, term):
         """(flag local, negated) if the switch tests a flag"""
